@@ -229,3 +229,37 @@ def stage_limit_in_force(stage: int, hi: int, ti: int, bi: int) -> bool:
             setattr(_pf, n, f)
     expected = hi if stage == 0 else ti if stage == 1 else bi
     return raised and len(calls) == expected and not net["converged"]
+
+
+# ---- the resolved Colebrook options are the ones handed to the Colebrook solver --------------------------------
+_dc = _importlib.import_module("pandapipes.pf.derivative_calculation")
+
+
+def colebrook_options_in_force(up: bool, u_mi: int, u_tol: int, kp: bool, k_mi: int, k_tol: int) -> bool:
+    """
+    pre: 1 <= u_mi <= 50 and 1 <= k_mi <= 50 and 1 <= u_tol <= 50 and 1 <= k_tol <= 50
+    post: __return__
+    """
+    # real init_options (layers) + real calc_lambda; colebrook_white is replaced by a recorder: the iteration limit and the
+    # tolerance it receives are the resolved options (tolerances are carried as integers: they are only passed through)
+    user = {"max_iter_colebrook": u_mi, "tolerance_colebrook": u_tol} if up else {}
+    net = _net(user)
+    kw = {"max_iter_colebrook": k_mi, "tolerance_colebrook": k_tol} if kp else {}
+    ps.init_options(net, friction_model="colebrook", use_numba=False, **kw)
+    o = net["_options"]
+    got = []
+    saved = _dc.colebrook_white
+
+    def recorder(re, d, k, lambda_nikuradse, max_iter, lengths, tolerance):
+        got.append((max_iter, tolerance))
+        return True, lambda_nikuradse
+    try:
+        _dc.colebrook_white = recorder
+        m = _np.array([0.5, 1.0])
+        _dc.calc_lambda(m, _np.array([1e-3, 1e-3]), _np.array([0.1, 0.1]), _np.array([1e-4, 1e-4]), False, o["friction_model"],
+                        _np.array([100.0, 50.0]), o, _np.array([0.00785, 0.00785]))
+    finally:
+        _dc.colebrook_white = saved
+    exp_mi = k_mi if kp else u_mi if up else DEFAULTS["max_iter_colebrook"]
+    exp_tol = k_tol if kp else u_tol if up else DEFAULTS["tolerance_colebrook"]
+    return len(got) == 1 and got[0] == (exp_mi, exp_tol)
